@@ -19,6 +19,7 @@ func init() {
 		Assumptions: []string{"sort.Search(n, f) returns an index in [0, n]; Collection.List is sorted by id (C01 R01.4)"},
 		Run:         runC15,
 		Controls: []Control{
+			{Name: "waste-token-shadowed", File: "pkg/trait/wastepb/model_server.go", Old: "\t\tstartIndex, _ = strconv.Atoi(pageToken)", New: "\t\tstartIndex, _ := strconv.Atoi(pageToken)", Expect: "R15.4"},
 			{Name: "remove-upper-cap", File: "pkg/trait/hailpb/pages.go", Old: "\tif pageSize > maxPageSize {\n\t\treturn maxPageSize\n\t}\n", New: "", Expect: "R15.1"},
 			{Name: "search-not-strict", File: "pkg/trait/publicationpb/model_server.go", Old: "\t\t\treturn sortedItems[i].Id > lastKey", New: "\t\t\treturn sortedItems[i].Id >= lastKey", Expect: "R15.4"},
 			{Name: "token-from-first-item", File: "pkg/trait/vendingpb/model_server.go", Old: "\t\t\tLastResourceName: sortedItems[upperBound-1].Consumable,", New: "\t\t\tLastResourceName: sortedItems[nextIndex].Consumable,", Expect: "R15.4"},
@@ -47,6 +48,10 @@ func runC15(c *an.Ctx) {
 	}
 	r15pages(c)
 	r15waste(c)
+	// the handlers that do not sort themselves binary-search the listing by `id > lastKey` (byte order): that is
+	// only right if Collection.List hands the items over in ascending byte order of their ids
+	r014(c, "R15.7")
+	c.Min("R15.7", 1)
 	c.Min("R15.1", 8)
 	c.Min("R15.2", 10)
 	c.Min("R15.3", 1)
@@ -744,6 +749,17 @@ func r15waste(c *an.Ctx) {
 		})
 	}
 	c.Check(okLoop, "R15.6", mn+"|the page ends at exactly count records", m.Pos(), "", "the model's collecting loop does not stop by comparing the number of collected records with its count parameter (unaltered): the handler's `page is full` test assumes exactly min(count, remaining) records")
+	// R15.4 (waste): a page asked for with a token starts where the token says: the start handed to the model is the
+	// number parsed from the token on the path where a token was given
+	fromToken := false
+	for _, v := range an.ValuesAt(call.Call.Args[1]) {
+		if ex, isEx := v.(*ssa.Extract); isEx && ex.Index == 0 {
+			if ac, isCall := ex.Tuple.(*ssa.Call); isCall && an.CalleeName(ac) == "strconv.Atoi" {
+				fromToken = true
+			}
+		}
+	}
+	c.Check(fromToken, "R15.4", hn+"|the page starts at the index parsed from the token", call.Pos(), "", "the start index given to Model.ListWasteRecords never comes from strconv.Atoi(page token) (e.g. the parsed value is assigned to a shadowed variable): every request returns the newest page with the same next_page_token - an endless token chain")
 	// R15.3: the index into allWasteRecords derives from `start`; it must be bounded by the length
 	idxOK := true
 	n := 0
